@@ -64,6 +64,12 @@ fn parse_roundtrip<const N: usize>(first: Option<u8>) {
     let w = m.serialize(&mut out);
     assert!(matches!(w, Ok(x) if x == ml), "serialize succeeds and writes messageLength bytes");
     assert!(N <= 64, "unroll64 covers the buffer");
+    // accumulated into four flags and asserted once each: every `assert!` is a separate check for
+    // which CBMC's JSON mode builds a trace, and 256 of them made the run exceed 25 minutes
+    let mut defined_bits_equal = true;
+    let mut reserved_bits_zero = true;
+    let mut nothing_beyond = true;
+    let mut enum_octets_ok = true;
     crate::unroll64!(i, {
         if i < N {
             if i < ml {
@@ -71,18 +77,22 @@ fn parse_roundtrip<const N: usize>(first: Option<u8>) {
                 let a = bytes[i];
                 let o = out[i];
                 if mt == 0xb && i == 34 + 15 {
-                    assert!(o == a || (accuracy_reserved(a) && o == 0), "clockAccuracy octet round-trips (reserved codes collapse to 0)");
+                    enum_octets_ok &= o == a || (accuracy_reserved(a) && o == 0);
                 } else if mt == 0xd && i == 34 + 13 {
-                    assert!(o == a || (a >= 5 && o == 5), "management action octet round-trips (reserved codes collapse to 5)");
+                    enum_octets_ok &= o == a || (a >= 5 && o == 5);
                 } else {
-                    assert!((a ^ o) & mask == 0, "re-serialised byte equals the input on all non-reserved bits");
-                    assert!(o & !mask == 0, "reserved bits are written as zero");
+                    defined_bits_equal &= (a ^ o) & mask == 0;
+                    reserved_bits_zero &= o & !mask == 0;
                 }
             } else {
-                assert!(out[i] == 0, "nothing written beyond messageLength");
+                nothing_beyond &= out[i] == 0;
             }
         }
     });
+    assert!(defined_bits_equal, "re-serialised bytes equal the input on all non-reserved bits");
+    assert!(reserved_bits_zero, "reserved bits are written as zero");
+    assert!(nothing_beyond, "nothing written beyond messageLength");
+    assert!(enum_octets_ok, "clockAccuracy / management action octets round-trip (reserved codes collapse to 0 / 5)");
 
     // header fields against the raw layout
     assert!(m.header.domain_number == bytes[4], "domainNumber");
